@@ -121,7 +121,7 @@ def run_case(case):
     raised_then_ok = False
     seen_raise = False
     try:
-        simprop.boot(sim)
+        simprop.boot(sim, need_leader=True)
         for kind, who, x in case['cmds']:
             names = sim.live()
             if kind == 'break':
@@ -177,6 +177,7 @@ def run_case(case):
                 sim.calm_round()
         # closing phase: healthy cluster, everything must settle
         sim.blocked = set()
+        sim.quiet_config()
         for _ in range(150):
             sim.calm_round()
             if all(cbs for _, _, _, _, cbs in subs) and len(set(sim.nodes[n].raftLastApplied for n in sim.live())) == 1:
